@@ -57,8 +57,15 @@ func Parse(raw *Raw) ([]*Converter, error) {
 		converters = append(converters, converter)
 	}
 
-	sort.Slice(converters, func(i, j int) bool {
-		return converters[i].Name < converters[j].Name
+	// Order by name; converters with equal names are ordered by their package
+	// (and keep their declaration order inside a package) so that the result
+	// does not depend on the order of the package patterns.
+	sort.SliceStable(converters, func(i, j int) bool {
+		a, b := converters[i], converters[j]
+		if a.Name != b.Name {
+			return a.Name < b.Name
+		}
+		return a.Package < b.Package
 	})
 
 	return converters, nil
